@@ -1627,6 +1627,21 @@ class C10S(PropOracle):
             self.holder = who
 
 
+    def on_vend(self, w, vp, d):
+        # a process that holds the role loads the state under the lock when it is promoted; nobody else may change the
+        # state while it holds the role, so its own writes can never be out of date (fault-free runs)
+        exc = str(d.get("exc") or "")
+        if d.get("crashed") and "VersionMismatch" in exc and not w.data.get("faulty") and self.holder == vp.name:
+            self.v(w, f"{vp.name} holds the submitter role and its write was rejected ({exc[:120]}): a process that is not the submitter changed the cluster state",
+                   "submitter-write-rejected")
+
+    def on_nested_crash(self, w, vp, d):
+        # the same for a node's own try-submit-jobs (run inline by the node process)
+        e = d.get("exc")
+        if e is not None and "VersionMismatch" in type(e).__name__ and not w.data.get("faulty") and self.holder == vp.name:
+            self.v(w, f"{vp.name} holds the submitter role and its write was rejected ({type(e).__name__}): a process that is not the submitter changed the cluster state",
+                   "submitter-write-rejected")
+
     def on_fremove(self, w, vp, d):
         # JADE never deletes a soft-lock marker itself (release is the lock library's business): a process that removes
         # the cluster lock while another live process is inside the critical section has broken mutual exclusion
@@ -1772,8 +1787,10 @@ class C18S(PropOracle):
             self.in_round.add(vp.name)
 
     def on_transition(self, w, vp, d):
-        if "cluster_config.json" not in w.written or w.data.get("faulty"):
+        if "cluster_config.json" not in w.written:
             return
+        if w.data.get("faulty") and not all(f[2] in ("fail", "fail-all") and "squeue" in str(f[1]) for f in (w.data.get("faults") or [])):
+            return  # (a failing status query is part of the property's quantifier; other faults are C11's business)
         c, s = w.obs.cluster, w.obs.jobstatus
         if not c or not s or c.get("submitter") is not None or vp.name not in self.in_round:
             return
